@@ -167,6 +167,18 @@ func (w *Worker) intrinsic(s *State, f *Frame, name string, fn *ssa.Function, ar
 			return adv(w.fresh(s, args[0].(string), 32))
 		case "U64", "I64":
 			return adv(w.fresh(s, args[0].(string), 64))
+		case "U64n", "I64n": // value in [0, 2^bits)
+			bits := int(asTerm(args[1]).val)
+			if bits < 1 || bits > 63 {
+				unsupported("U64n/I64n bits out of range")
+			}
+			return adv(ZExt(w.fresh(s, args[0].(string), bits), 64))
+		case "U32n":
+			bits := int(asTerm(args[1]).val)
+			if bits < 1 || bits > 31 {
+				unsupported("U32n bits out of range")
+			}
+			return adv(ZExt(w.fresh(s, args[0].(string), bits), 32))
 		case "Bool":
 			v := w.fresh(s, args[0].(string), 64)
 			s.addPC(Cmp("bvult", v, BV(64, 2)))
